@@ -2,14 +2,28 @@
 CFG = dict(
     dirs=["Common", "C19"], gen=True,
     run_targets=["C19/Run.vo"], proof_targets=["C19/Props.vo"], props="C19/Props.v",
-    gen_obligations=[],
+    gen_obligations=[
+        "Inst.gen_collectable_spec: gc_cycle's regenerated test deletes a chunk only when its reference count is 0 (and, gen_collectable_age, only when created < now - min_age)",
+        "Inst.gen_rdec_spec / gen_rinc_spec: decrement_chunk_refs computes refs-1 floored at 0, increment_chunk_refs refs+1",
+        "Inst.gen_fgc_spec / gen_rep_spec: full_gc and integrity::repair scan the records unfinished writers keep of their chunk keys",
+    ],
     crate="nvh_c19",
     header=H + "From NV.C19 Require Import Model Run.\nOpen Scope N_scope.",
     kinds={"trace": ("trace_case", "check_trace"), "damage": ("damage_case", "check_damage")},
     known_classes={},
     shard=60,
     rule="seeded put/stream-write/finish/delete/get/gc/full_gc/verify/repair/advance programs over overlapping content with sizes around chunk boundaries, run on the real async BlobStore (tokio) and on the Gallina model",
-    trusted_base=COMMON_TB + [],
-    assumptions=[],
+    trusted_base=COMMON_TB + [
+        "modelled, not verified: SHA-256 as an arbitrary function (no injectivity assumed; collision-or statements), its values supplied per case by the implementation's own compute_hash; TensorStore as an association list (scan order never observed: gc's examined keys are an explicit input, dumps are sorted); the wall clock as a logical clock (the harness moves time by rewriting the chunks' _created, all distances >= 500 s from any decision boundary); uuid artifact ids as a counter; metadata/tags/links/embedding fields of artifact records, secondary indexes, DurableBlobStore, the background GC task (gc_cycle on a timer) are outside the model",
+        "concurrency: 2-4 tokio tasks (multi-thread runtime) put/stream/delete/gc/full_gc overlapping content; only quiescent verdicts (every existing artifact reads back and verifies; delete-all + full_gc leaves nothing); no schedule hook, so interleavings are sampled, not enumerated",
+    ],
+    assumptions=[
+        "writers are eventually finished or stay open: dropping a BlobWriter without finish() (its chunks keep their counts until full_gc/repair) is not in the op alphabet",
+        "gc_cycle's batch (first batch_size keys of a scan) is an arbitrary list of examined keys in the theorems; the correspondence runs use a batch larger than the store",
+        "the theorems are about sequential programs; concurrent schedules are only stress-tested (the reference-count updates are unlocked read-modify-writes on stored values)",
+    ],
 )
-MANIFEST = dict(text="", note="")
+MANIFEST = dict(
+    text="Chunker round trip (all sizes, all chunk sizes > 0), reads-return-the-bytes-written for every program of put/stream/delete/gc/full_gc/verify/repair (refinement of a byte-string specification; any partition of a stream into writes), the reference-count invariant, delete-leaves-others, collectors never touch a listed chunk, delete-all + full_gc leaves nothing, verify reports missing/altered chunks are Coq theorems over the blob-store model with SHA-256 an arbitrary function (collision-or form over the chunk contents stored in the run); gc/refcount decision expressions and the in-flight-writer scan are regenerated from the Rust sources on every run and their obligations re-proved; the model is compared step by step with the real async BlobStore (chunk table, artifact records, every read and verify after every step), plus verify-under-damage cases and a concurrent stress with quiescent verdicts.",
+    note="Trusted: Coq kernel, rs2v.py for the listed expressions, harness + driver. Modelled not verified: SHA-256 (arbitrary function), TensorStore as association list, logical clock, uuid ids as counter. Sequential theorems only; concurrency is stress-tested.",
+)
